@@ -132,27 +132,27 @@ var isDoc = map[string]struct {
 	Dep   []int // value-dependent: may return either
 	Other string
 }{
-	"is_absent":        {True: []int{K_ABSENT}},
-	"is_present":       {True: []int{K_INT, K_FLOAT, K_BOOL, K_VOID, K_STRING, K_BYTES, K_ARRAY, K_MAP, K_FUNC, K_ERROR, K_NULL}},
-	"is_error":         {True: []int{K_ERROR}},
-	"is_boolean":       {True: []int{K_BOOL}},
-	"is_bytes":         {True: []int{K_BYTES}},
-	"is_float":         {True: []int{K_FLOAT}},
-	"is_int":           {True: []int{K_INT}},
-	"is_numeric":       {True: []int{K_INT, K_FLOAT}},
-	"is_map":           {True: []int{K_MAP}},
-	"is_array":         {True: []int{K_ARRAY}},
-	"is_not_map":       {True: []int{K_INT, K_FLOAT, K_BOOL, K_VOID, K_STRING, K_BYTES, K_ARRAY, K_FUNC, K_ERROR, K_NULL, K_ABSENT}},
-	"is_not_array":     {True: []int{K_INT, K_FLOAT, K_BOOL, K_VOID, K_STRING, K_BYTES, K_MAP, K_FUNC, K_ERROR, K_NULL, K_ABSENT}},
-	"is_null":          {True: []int{K_ABSENT, K_VOID, K_NULL}},
-	"is_not_null":      {True: []int{K_INT, K_FLOAT, K_BOOL, K_STRING, K_BYTES, K_ARRAY, K_MAP, K_FUNC, K_ERROR}},
-	"is_empty":         {True: []int{K_VOID}, Dep: []int{K_STRING}},
-	"is_not_empty":     {True: []int{K_INT, K_FLOAT, K_BOOL, K_BYTES, K_ARRAY, K_MAP, K_FUNC, K_ERROR, K_NULL}, Dep: []int{K_STRING}},
-	"is_string":        {True: []int{K_STRING, K_VOID}},
-	"is_empty_map":     {Dep: []int{K_MAP}},
-	"is_nonempty_map":  {Dep: []int{K_MAP}},
-	"is_nan":           {Dep: []int{K_FLOAT}},
-	"is_inf":           {Dep: []int{K_FLOAT}},
+	"is_absent":       {True: []int{K_ABSENT}},
+	"is_present":      {True: []int{K_INT, K_FLOAT, K_BOOL, K_VOID, K_STRING, K_BYTES, K_ARRAY, K_MAP, K_FUNC, K_ERROR, K_NULL}},
+	"is_error":        {True: []int{K_ERROR}},
+	"is_boolean":      {True: []int{K_BOOL}},
+	"is_bytes":        {True: []int{K_BYTES}},
+	"is_float":        {True: []int{K_FLOAT}},
+	"is_int":          {True: []int{K_INT}},
+	"is_numeric":      {True: []int{K_INT, K_FLOAT}},
+	"is_map":          {True: []int{K_MAP}},
+	"is_array":        {True: []int{K_ARRAY}},
+	"is_not_map":      {True: []int{K_INT, K_FLOAT, K_BOOL, K_VOID, K_STRING, K_BYTES, K_ARRAY, K_FUNC, K_ERROR, K_NULL, K_ABSENT}},
+	"is_not_array":    {True: []int{K_INT, K_FLOAT, K_BOOL, K_VOID, K_STRING, K_BYTES, K_MAP, K_FUNC, K_ERROR, K_NULL, K_ABSENT}},
+	"is_null":         {True: []int{K_ABSENT, K_VOID, K_NULL}},
+	"is_not_null":     {True: []int{K_INT, K_FLOAT, K_BOOL, K_STRING, K_BYTES, K_ARRAY, K_MAP, K_FUNC, K_ERROR}},
+	"is_empty":        {True: []int{K_VOID}, Dep: []int{K_STRING}},
+	"is_not_empty":    {True: []int{K_INT, K_FLOAT, K_BOOL, K_BYTES, K_ARRAY, K_MAP, K_FUNC, K_ERROR, K_NULL}, Dep: []int{K_STRING}},
+	"is_string":       {True: []int{K_STRING, K_VOID}},
+	"is_empty_map":    {Dep: []int{K_MAP}},
+	"is_nonempty_map": {Dep: []int{K_MAP}},
+	"is_nan":          {Dep: []int{K_FLOAT}},
+	"is_inf":          {Dep: []int{K_FLOAT}},
 }
 
 func runC08Is(c *Ctx, r *Report, rs *RetSum, reg []*BIFEntry) {
